@@ -93,3 +93,86 @@ func inRegion(fn, g *ssa.Function) bool {
 	}
 	return false
 }
+
+// ---------------------------------------------------------------------------
+// looking through a private helper that has exactly one call site
+
+var callSiteIndex map[*World]map[*ssa.Function][]ssa.CallInstruction
+
+// callSites returns the static call sites of fn in the module (go and defer included).
+func (w *World) callSites(fn *ssa.Function) []ssa.CallInstruction {
+	if callSiteIndex == nil {
+		callSiteIndex = map[*World]map[*ssa.Function][]ssa.CallInstruction{}
+	}
+	idx := callSiteIndex[w]
+	if idx == nil {
+		idx = map[*ssa.Function][]ssa.CallInstruction{}
+		for _, g := range w.Funcs {
+			for _, f := range withAnon(g) {
+				for _, c := range callInstrs(f) {
+					if callee := c.Common().StaticCallee(); callee != nil {
+						idx[callee] = append(idx[callee], c)
+					}
+				}
+			}
+		}
+		callSiteIndex[w] = idx
+	}
+	return idx[fn]
+}
+
+// uniqueSite returns the only call site of an unexported function, or nil.
+func (w *World) uniqueSite(fn *ssa.Function) ssa.CallInstruction {
+	if fn == nil || fn.Parent() != nil || (fn.Object() != nil && fn.Object().Exported()) {
+		return nil
+	}
+	cs := w.callSites(fn)
+	if len(cs) != 1 {
+		return nil
+	}
+	return cs[0]
+}
+
+// up replaces a parameter of a single-call-site private function by the argument passed for
+// it, repeatedly, looking through value-preserving conversions: values are then comparable
+// across the helper boundary as if the helper had been written inline.
+func (w *World) up(v ssa.Value) ssa.Value {
+	for i := 0; i < 6; i++ {
+		v = stripConv(v)
+		p, ok := v.(*ssa.Parameter)
+		if !ok {
+			return v
+		}
+		site := w.uniqueSite(p.Parent())
+		if site == nil {
+			return v
+		}
+		idx := -1
+		for j, q := range p.Parent().Params {
+			if q == p {
+				idx = j
+			}
+		}
+		if idx < 0 || idx >= len(site.Common().Args) {
+			return v
+		}
+		v = site.Common().Args[idx]
+	}
+	return v
+}
+
+// factsAt: the comparisons that hold at an instruction - those dominating its block and, if
+// its function is a single-call-site private helper, those that hold at the call.
+func (w *World) factsAt(in ssa.Instruction) []Cmp {
+	out := cmpsAt(in.Block())
+	fn := in.Parent()
+	for i := 0; i < 4 && fn != nil; i++ {
+		site := w.uniqueSite(fn)
+		if site == nil {
+			break
+		}
+		out = append(out, cmpsAt(site.Block())...)
+		fn = site.Parent()
+	}
+	return out
+}
